@@ -92,7 +92,7 @@ CLAIMS = {
                      "queue in general (queueing steps, foster-parenting branch of the flush), in the modes that split off leading white space (SplitWhitespace), in 'in cell', in "
                      "foreign content, with foster parenting on or a template element as the current node - see the headers of "
                      "coq/Tree/TreeSplit.v and TreeSplitRun.v. Oracle: metamorphic chunking / script-injection "
-                     "runs on the implementation (tokens, errors, lines, final tree).",
+                     "runs on the implementation (tokens, errors, lines, final tree). FUEL DISCHARGED for the default mode too (TokIR/BulkTerm.v, Inst/InstBulkTerm.v): the `regular` hypotheses of the C03_default_mode_* theorems are replaced by the explicit bound (T+1)(2T+10) on unread input + chunks + injectable text (C03_default_mode_run_is_regular, C03_default_mode_against_reference_total, C03_default_mode_is_reference_up_to_obs_total, C03_default_mode_chunking_independent_obs_total - the last still with the all_done hypotheses on the default-mode logs): a default-mode step is n >= 1 exact-mode steps, ended runs are fuel-monotone, EOF loops run in lock step, and the exact-mode chunked interpreter is the terminating reference one.",
                 note=TOK_NOTE, tech="generic Coq suspend/resume proof over regenerated TokIR table + reference/chunked/impl differential + chunking oracle"),
     "C04": dict(cat="proof", ref="DESIGN.md section 5 C04",
                 text="PARTIAL proof (tokenizers). Props/C04.v proves on the regenerated html and xml tables: EOF handling reads no "
@@ -124,8 +124,10 @@ CLAIMS = {
                      "C04_xml_tokenizer_run_terminates / _end_terminates / C04_xml_driver_terminates) and is total too "
                      "(TokIR/NoPanicX.v, C04_xml_tokenizer_total: xml's tag emission never switches the state and end() has no assert "
                      "sites, so end() always answers done and every feed entry is done / script pause / encoding indicator / the "
-                     "driver model's limit 96; no condition on the sink). Not covered: the default mode with bulk reads over "
-                     "the chunked queue (tied to the reference run by BulkSim only for regular runs). Tree builders, stack depth and "
+                     "driver model's limit 96; no condition on the sink). The DEFAULT mode over the chunked queue (exact_errors = false, bulk reads, SIMD scan) never runs out of fuel either "
+                     "with the same bound, both tokenizers (TokIR/BulkTerm.v: step counting through BulkSim's simulation + QueueSim; "
+                     "C03_default_mode_run_is_regular, C15_default_mode_run_is_regular); its no-panic statement is not transported. "
+                     "Tree builders, stack depth and "
                      "time are covered by the harness only (panic/abort/hang watch, queue-empty and single-EOF oracles, deep nesting).",
                 note=TOK_NOTE, tech="reflective Coq checks (EOF rank, char-ref states) + Coq termination proof of the tokenizer interpreter with explicit fuel bound (potential function, rank check on the regenerated table) + totality oracle incl. pathological inputs"),
     "C08": dict(cat="proof", ref="DESIGN.md section 5 C08",
@@ -148,7 +150,7 @@ CLAIMS = {
                      "counted by get_preprocessed_char; arms reconsume only after reading; EOF arms do not read; "
                      "C08_xml_bulk_table_conditions: no condition fails on the xml table). Still tested only: "
                      "the other options (discard_bom, drop_doctype, profile), the tree-builder level, and Rust "
-                     "vs interpreter: metamorphic option oracle on the implementation (tokens and trees).",
+                     "vs interpreter: metamorphic option oracle on the implementation (tokens and trees). The `regular` (no fuel exhaustion) hypothesis of the whole-run theorems is discharged for both tokenizers by the explicit fuel bound of C04 (C08_exact_errors_changes_only_errors_and_text_cuts_total, C08_xml_..._total; TokIR/BulkTerm.v).",
                 note=TOK_NOTE, tech="reflective Coq checks on char sets + Coq stuttering simulation fast path vs slow path (whole driver, html and xml) + option metamorphic oracle"),
     "C09": dict(cat="proof", ref="DESIGN.md section 5 C09",
                 text="PARTIAL proof. Props/C09.v proves the law itself for ALL inputs on the interpreter over the regenerated html "
@@ -198,7 +200,7 @@ CLAIMS = {
                      "_partial: the Rust code "
                      "vs the interpreter is tied differentially. Chunking / exact_errors / discard_bom independence of the real "
                      "parser and the normalisation law tree(x) = tree(normalise(x)) are checked metamorphically on the "
-                     "implementation (tokens and trees); reference vs chunked interpreter vs Rust code tied differentially.",
+                     "implementation (tokens and trees); reference vs chunked interpreter vs Rust code tied differentially. The `regular` hypotheses of the xml default-mode theorems are discharged by the explicit fuel bound of C04_xml_tokenizer_run_terminates (C15_default_mode_run_is_regular, C15_default_mode_against_reference_total, C15_default_mode_is_reference_up_to_obs_total; TokIR/BulkTerm.v over TermX.v).",
                 note=TOK_NOTE, tech="generic Coq suspend/resume proof + reflective checks on regenerated xml table + chunking/option/normalisation oracles"),
 }
 
